@@ -127,6 +127,11 @@ func (g *gen) genBlock(maxN int) ([]*Node, bool) {
 	defer g.pop()
 	g.f.depth++
 	defer func() { g.f.depth-- }()
+	if g.chance(6) {
+		// an empty body: `if c {}`, `for … {}`, `case x:` compile to jumps to the very next instruction
+		g.mark("empty-block")
+		return nil, false
+	}
 	tp := g.tracePoint()
 	st, term := g.genStmts(maxN)
 	if tp != nil {
@@ -1340,6 +1345,12 @@ func (g *gen) stDefer() *Node {
 			if !f.exported && f.recv == "" && !f.fuel && g.callOK(f, false) {
 				if len(f.results) > 0 && !g.on(kDeferResult) {
 					continue
+				}
+				if f.mayRecover {
+					if !g.on(kNestedRecov) {
+						continue
+					}
+					g.mark("nested-recover-call")
 				}
 				cs = append(cs, f)
 			}
